@@ -7,6 +7,7 @@ from pta import paths as P
 from pta.check import Spec
 from pta.flow import Flow, child_paths, fmt_paths, paths_of
 from pta.model import AnalysisError
+from pta.pat import find, has, th, kwarg
 from pta.rules.common import (
     CWALK, LPREDS, LUSERS, USERS, WALK, concrete_kinds, handler_name, short,
 )
@@ -210,21 +211,22 @@ def r_count(c):
         fd = m.func(A + f"NodeCountMapper.{name}")
         rets = _ret_ifexp(fd)
         ok = False
+        ep = fd.args.args[1].arg
         if len(rets) == 1 and isinstance(rets[0].value, ast.IfExp):
             ie = rets[0].value
             ok = (ast.unparse(ie.test) == "self.count_duplicates"
-                  and ast.unparse(ie.body) == "id(expr)"
-                  and ast.unparse(ie.orelse) == "expr")
+                  and ast.unparse(ie.body) == f"id({ep})"
+                  and ast.unparse(ie.orelse) == ep)
             ok = ok or (ast.unparse(ie.test) == "not self.count_duplicates"
-                        and ast.unparse(ie.orelse) == "id(expr)"
-                        and ast.unparse(ie.body) == "expr")
+                        and ast.unparse(ie.orelse) == f"id({ep})"
+                        and ast.unparse(ie.body) == ep)
         c.check(ok, "R20-COUNT", f"NodeCountMapper.{name}", "key-by-id-iff-duplicates",
                 m.loc(m.module_of(fd), fd),
                 "cache key is no longer id(expr) exactly when duplicates are counted "
                 "and the node itself otherwise")
     # clone_for_callee passes count_duplicates on
     fd = m.func(A + "NodeCountMapper.clone_for_callee")
-    c.check("count_duplicates=self.count_duplicates" in ast.unparse(fd),
+    c.check(bool(kwarg(fd, "count_duplicates", "self.count_duplicates")),
             "R20-COUNT", "NodeCountMapper.clone_for_callee", "propagates-count_duplicates",
             m.loc(m.module_of(fd), fd),
             "the mapper cloned for function bodies does not inherit count_duplicates")
@@ -244,20 +246,26 @@ def r_count(c):
         for name in ("get_cache_key", "get_function_definition_cache_key"):
             fd = m.func(A + f"{cls}.{name}")
             rets = _ret_ifexp(fd)
-            c.check(len(rets) == 1 and ast.unparse(rets[0].value) == "id(expr)",
+            c.check(len(rets) == 1
+                    and ast.unparse(rets[0].value) == f"id({fd.args.args[1].arg})",
                     "R20-COUNT", f"{cls}.{name}", "key-by-id",
                     m.loc(m.module_of(fd), fd),
                     "objects are no longer distinguished by identity")
     # NodeMultiplicityMapper keys its result by the node (equality), not id
     fd = m.func(A + "NodeMultiplicityMapper.post_visit")
-    c.check(any(isinstance(n, ast.Subscript) and ast.unparse(n.slice) == "expr"
+    c.check(any(isinstance(n, ast.Subscript) and ast.unparse(n.slice) == fd.args.args[1].arg
                 for n in ast.walk(fd)), "R20-COUNT", "NodeMultiplicityMapper.post_visit",
             "counts-per-equal-node", m.loc(m.module_of(fd), fd),
             "multiplicity is no longer accumulated per (equality class of) node")
     # CallSiteCountMapper adds the callee's count
     fd = m.func(A + "CallSiteCountMapper.map_function_definition")
-    c.check(any(isinstance(n, ast.AugAssign) and "new_mapper.count" in ast.unparse(n.value)
-                for n in ast.walk(fd)), "R20-COUNT",
+    ep = fd.args.args[1].arg
+    c.check(has(fd, f"""
+$nm = self.clone_for_callee({ep})
+for $sub in {ep}.returns.values():
+    $nm($sub)
+self.count += $nm.count
+"""), "R20-COUNT",
             "CallSiteCountMapper.map_function_definition", "adds-callee-count",
             m.loc(m.module_of(fd), fd), "call sites inside function bodies are lost")
     # TagCountMapper.rec
@@ -275,7 +283,9 @@ def r_count(c):
         else_zero = not any(isinstance(n, ast.BinOp) and isinstance(n.op, ast.Add)
                             and "1" in (ast.unparse(n.left), ast.unparse(n.right))
                             for s in t.orelse for n in ast.walk(s))
-        subset = "<=" in tt and "isinstance(expr, Array)" in tt
+        ep = fd.args.args[1].arg
+        subset = has(t.test, f"isinstance({ep}, Array) and "
+                             f"self._tag_types <= frozenset((type($t) for $t in {ep}.tags))")
         ok = body_plus and else_zero and subset
     c.check(ok, "R20-COUNT", "TagCountMapper.rec", "adds-one-iff-tagged",
             m.loc(m.module_of(fd), fd),
@@ -290,7 +300,8 @@ def r_count(c):
             "path)")
     # get_nusers counts list lengths
     fd = m.func(A + "get_nusers")
-    c.check("len(users)" in ast.unparse(fd) and "ListOfUsersCollector" in ast.unparse(fd),
+    c.check(has(fd, "$c = ListOfUsersCollector()\n$c($o)") and (
+        has(fd, "{$a: len($u) for $a, $u in $c.array_to_users.items()}")),
             "R20-COUNT", "get_nusers", "counts-list-length",
             m.loc(m.module_of(fd), fd),
             "number of users is no longer the length of the list of users")
@@ -317,21 +328,34 @@ def r_materialized(c):
         c.check(need in names, "R20-MATERIALIZED", "MaterializedNodeCollector.post_visit",
                 f"type:{need}", where,
                 f"{why} ({need}) are no longer collected as materialized")
-    src = ast.unparse(fd)
-    c.check("tags_of_type(ImplStored)" in src, "R20-MATERIALIZED",
+    ep = fd.args.args[1].arg
+    c.check(has(fd, f"isinstance({ep}, Array) and {ep}.tags_of_type(ImplStored)"),
+            "R20-MATERIALIZED",
             "MaterializedNodeCollector.post_visit", "stored-tag", where,
             "ImplStored-tagged nodes are no longer collected")
-    for cond, add, inst in (("DistributedSendRefHolder", "expr.send.data", "sent-data"),
-                            ("LoopyCall", "subexpr", "loopy-call-bindings"),
-                            ("Call", "expr.bindings.values()", "call-bindings")):
+    for cond, add, inst in (
+            ("DistributedSendRefHolder",
+             [f"self.materialized_nodes.add({ep}.send.data)"], "sent-data"),
+            ("LoopyCall", [], "loopy-call-bindings"),
+            ("Call", [f"self.materialized_nodes.update({ep}.bindings.values())"],
+             "call-bindings")):
         ok = False
         for n in ast.walk(fd):
-            if isinstance(n, ast.If) and f"isinstance(expr, {cond})" == ast.unparse(n.test):
-                ok = any(isinstance(x, ast.Call) and isinstance(x.func, ast.Attribute)
-                         and x.func.attr in ("add", "update")
-                         and "materialized_nodes" in ast.unparse(x.func)
-                         and ast.unparse(x.args[0]) == add
-                         for s in n.body for x in ast.walk(s))
+            if isinstance(n, ast.If) and f"isinstance({ep}, {cond})" == ast.unparse(n.test):
+                blk = ast.Module(body=n.body, type_ignores=[])
+                if cond == "LoopyCall":
+                    for l in ast.walk(blk):
+                        if isinstance(l, ast.For) and isinstance(l.target, ast.Name) \
+                                and ast.unparse(l.iter) == f"{ep}.bindings.values()":
+                            sv = l.target.id
+                            ok = any(
+                                isinstance(i, ast.If)
+                                and ast.unparse(i.test) == f"isinstance({sv}, Array)"
+                                and has(ast.Module(body=i.body, type_ignores=[]),
+                                        f"self.materialized_nodes.add({sv})")
+                                for i in l.body)
+                else:
+                    ok = any(has(blk, a) for a in add)
         c.check(ok, "R20-MATERIALIZED", "MaterializedNodeCollector.post_visit", inst,
                 where, f"{inst} are no longer collected as materialized")
     # outputs only under include_outputs
